@@ -71,7 +71,7 @@ class RenderContext:
         local_namespace_carry: int = 0,
     ) -> None:
         self.template = template
-        self.globals = global_data or {}
+        self.globals = global_data if global_data is not None else {}
         self.disabled_tags = disabled_tags or set()
         self.parent = parent
         self._copy_depth = copy_depth
